@@ -66,7 +66,7 @@ bad = []
 for it in items:
     mod = importlib.import_module('asyncssh.' + it['module'])
     obj = mod
-    parts = it['qualname'].split('.')
+    parts = it['qualname'].split('$')[0].split('.')     # 'f$k' = k-th conditional module-level definition of f
     try:
         if len(parts) == 2:
             cls = getattr(mod, parts[0])
@@ -162,10 +162,12 @@ def run_property(prop, tier='quick', update_baseline=False, only=None, verbose=F
             cross['skipped'] += len(r.outcomes)
             continue
         ocs = list(r.outcomes)
-        if len(ocs) > limit:
+        # a sidecar may lower the quick-tier sample for a function whose path models are expensive to find
+        flimit = limit if tier == 'thorough' else min(limit, getattr(r.spec, 'crosscheck_limit', limit))
+        if len(ocs) > flimit:
             rnd.shuffle(ocs)
-            cross['skipped'] += len(ocs) - limit
-            ocs = ocs[:limit]
+            cross['skipped'] += len(ocs) - flimit
+            ocs = ocs[:flimit]
         for oc in ocs:
             if oc.state.heap.get('__cut__'):
                 cross['skipped'] += 1
@@ -396,6 +398,9 @@ def confirm(ob):
     st = ob.state
     if st is None or r.engine is None:
         return {'status': 'inconclusive', 'diffs': ['no state']}
+    if getattr(r.spec, 'no_replay', False) or r.spec.region is not None:
+        # a region of a function (or a spec marked no_replay) cannot be started natively from the symbolic pre-state
+        return {'status': 'inconclusive', 'diffs': ['region contract / no_replay: no native replay of the counter-model']}
     neg = [z3.Not(ob.goal)] if ob.kind != 'cover' else []
     rebase, skip_calls = None, 0
     if st.heap.get('__cut__'):
